@@ -85,9 +85,9 @@ theorem C06_comment_conversion_is_exact (e : Env) (n : ANode) :
 
 /-- T6.1 without a certificate (route M): for every expression tree of the covered fragment the
 rendered layout, at every width and unit, contains exactly the tree's comments, complete and in order. -/
-theorem C06_fragment_comments_preserved (e : Env) (fuel : Nat) (ctx : Ctx) (n : ANode) (hx : isExpr n = true) (hq : inFrag n = true)
+theorem C06_fragment_comments_preserved (e : Env) (fuel : Nat) (ctx : Ctx) (hctx : NM ctx) (n : ANode) (hx : isExpr n = true) (hq : inFrag n = true)
     (d : Twin.Doc) (k k' : St) (h : ((knot e fuel).expr ctx n).run k = .ok (d, k')) (u w : Nat) :
     cmtText (best w 0 [⟨0, .brk, d.fam u⟩]) = (specCmts n).toList :=
-  (routeM_expr e fuel ctx n hx hq d k k' h u w).2.1
+  (routeM_expr e fuel ctx hctx n hx hq d k k' h u w).2.1
 
 end Typstyle
